@@ -337,6 +337,13 @@ func cloneExpr(expr Expression) Expression {
 			Expr: cloneExpr(expr.Expr),
 			p:    expr.p,
 		}
+	case *RecoveryExpr:
+		return &RecoveryExpr{
+			Expr:        cloneExpr(expr.Expr),
+			RecoverExpr: cloneExpr(expr.RecoverExpr),
+			Labels:      append([]FailureLabel{}, expr.Labels...),
+			p:           expr.p,
+		}
 	case *SeqExpr:
 		exprs := make([]Expression, 0, len(expr.Exprs))
 		for i := 0; i < len(expr.Exprs); i++ {
